@@ -197,7 +197,7 @@ def gen_args(ctx):
     for n in range(1, maxlen + 1):
         args += [''.join(t) for t in itertools.product(ALPHA, repeat=n)]
     wide = ALPHA + ['\n', '\t', '\r', '\x08', '\x00', 'n', 't', '0', 'é', '[', ']', 'E', ' ', '\U0001f600', '-', ';']
-    for _ in range(ctx.budget(1200, 60000)):
+    for _ in range(ctx.budget(1200, 36000)):
         n = rng.choice([1, 2, 3, 3, 4, 6])
         args.append(''.join(rng.choice(ALPHA if rng.random() < 0.5 else wide) for _ in range(n)))
     return args
